@@ -38,7 +38,21 @@ type vhIn struct {
 	virt   bool
 }
 
-func vhID(i int) string { return "n" + strconv.Itoa(i) }
+// vhID: node names of the harness inputs. IDSET 0: n0, n1, ..; IDSET 1: names whose concatenations are ambiguous without a
+// separator ("1"+"12" == "11"+"2") - any key built from concatenated IDs collides; IDSET 2: powers of one word incl. the empty name.
+func vhID(i int) string {
+	switch vhConst("IDSET") {
+	case 1:
+		return []string{"1", "12", "2", "11", "21", "112", "121", "3"}[i%8]
+	case 2:
+		w := ""
+		for k := 0; k < i; k++ {
+			w += "x"
+		}
+		return w
+	}
+	return "n" + strconv.Itoa(i)
+}
 
 // vhShape reads the concrete edge list of this cube: M edges ef[i] -> et[i] over nodes 0..N-1
 // (canonical numbering: first-occurrence order, as graph.EdgeSlice.Populate numbers them).
